@@ -76,10 +76,8 @@ def conforms (O : Oracles) : FieldDecl → PyVal → Bool
       cInline c v (fun attrs => wfAttrs c (fields.map (·.1)) attrs (fieldsConform O attrs fields))
     else aClassRef c v
   | .anyOf fs, v => conformsAny O fs v
-  -- what OneOf / AllOf store is the normal form of the matched / first option: of a stored value one can only say that
-  -- it is a conforming stored value of some option (OneOf) / of the first option (AllOf)
-  | .oneOf fs, v => conformsAny O fs v
-  | .allOf fs, v => conformsFirst O fs v
+  | .oneOf fs, v => countAdmits O fs v == 1
+  | .allOf fs, v => admitsAll O fs v
   | .notF fs, v => countAdmits O fs v == 0
   | .noneF, v => v.isNone
   | .anything, _ => true
@@ -89,11 +87,6 @@ def conformsZip (O : Oracles) : List FieldDecl → List PyVal → Bool
   | [], _ => true
   | _ :: _, [] => true
   | f :: fs, x :: xs => conforms O f x && conformsZip O fs xs
-termination_by structural fs _ => fs
-
-def conformsFirst (O : Oracles) : List FieldDecl → PyVal → Bool
-  | [], _ => true
-  | f :: _, v => conforms O f v
 termination_by structural fs _ => fs
 
 def conformsAny (O : Oracles) : List FieldDecl → PyVal → Bool
